@@ -7,7 +7,7 @@
    packaging 26.3 and pip define it).  PEP 440 is an oracle on both sides. *)
 From Coq Require Import Permutation.
 From DepsDev Require Import Lib.Base Gen.PypiEnvTables Pypi.PyStr Pypi.Dependency Pypi.Dependency_proofs
-  Pypi.Split_proofs Resolve.Markers Resolve.Markers_proofs Resolve.Markers_spec_proofs
+  Pypi.Split_proofs Pypi.Total_proofs Resolve.Markers Resolve.Markers_proofs Resolve.Markers_spec_proofs
   Spec.Pep508Spec Spec.Pep508Domain.
 
 (* ------------------------------------------------------------------ regenerated tables *)
@@ -60,6 +60,38 @@ Theorem C16_split : forall r, wf_req r = true ->
     d_env d = req_marker_text r.
 Proof. exact split_printed. Qed.
 Print Assumptions C16_split.
+
+(* ------------------------------------------------------------------ totality (C04) *)
+(* ParseDependency never panics: on EVERY byte string the model, in which each Go index and
+   slice expression is a panicking primitive (idx, go_slice), returns a value or an error.
+   parse_dependency takes no fuel. [returns r] is: r is neither Panic nor OutOfFuel. *)
+Theorem C16_parse_dependency_total : forall s,
+  match parse_dependency s with Panic _ => False | OutOfFuel => False | _ => True end.
+Proof. exact parse_dependency_total. Qed.
+Print Assumptions C16_parse_dependency_total.
+
+(* CanonPackageName is modelled by the plain total function [canon_name : bytes -> bytes]
+   (the Go loop only reads name[i] for i < len(name) and writes to a buffer): there is no
+   failure outcome to exclude. The statement below records the type. *)
+Theorem C16_canon_name_total : forall s, exists out : bytes, canon_name s = out.
+Proof. intros s. exists (canon_name s). reflexivity. Qed.
+
+(* the splitting helpers: the extras step is total on every non-empty remainder (its s[0]
+   DOES panic on the empty one; the both-ends trim of the input is what keeps the remainder
+   after the name non-empty: parse_tail_total), the constraint and environment steps are
+   total on everything *)
+Theorem C16_extras_step_total : forall s1, s1 <> [] -> returns (extras_step s1).
+Proof. exact extras_step_returns. Qed.
+Theorem C16_extras_step_empty_panics : extras_step [] = Panic PIndex.
+Proof. exact extras_step_empty. Qed.
+Theorem C16_constraint_step_total : forall s2, returns (constraint_step s2).
+Proof. exact constraint_step_returns. Qed.
+Theorem C16_env_step_total : forall n e c s3, returns (env_step n e c s3).
+Proof. exact env_step_returns. Qed.
+Theorem C16_parse_tail_total : forall name rest,
+  (exists c r, rev rest = c :: r /\ is_space c = false) -> returns (parse_tail name rest).
+Proof. exact parse_tail_returns. Qed.
+Print Assumptions C16_parse_tail_total.
 
 (* ------------------------------------------------------------------ markers: parsing *)
 (* the parser reads back every printed marker tree: parenthesisation, and/or nesting, all
